@@ -6,9 +6,9 @@ import KavaVerif.Props.C02
 #print axioms KV.Safe.C02_all_routes_covered
 #print axioms KV.Safe.C02_unregistered_routes_known
 #print axioms KV.Safe.C02_blocker_order
-#print axioms KV.Safe.C02_cdp_debt_split_counterexample
-#print axioms KV.Safe.C02_cdp_debt_split_witness
-#print axioms KV.Safe.C02_cdp_debt_split_single_partial
+#print axioms KV.Safe.C02_cdp_debt_split_exact
+#print axioms KV.Safe.C02_cdp_debt_split_single
+#print axioms KV.Safe.C02_cdp_debt_split_before_fix_witness
 #print axioms KV.Safe.C02_kavadist_mint_step_never_panics
 #print axioms KV.Safe.C02_kavadist_partner_rewards_counterexample
 #print axioms KV.Safe.C02_kavadist_partner_rewards_partial
